@@ -23,10 +23,13 @@ func families(tier string) []fw.Family {
 		strs := stringsUpTo(tokens, 4)
 		return []fw.Family{
 			familySubsetter(),
-			familyToPath(fmt.Sprintf("text to paths: %d strings of at most 4 tokens x 3 fonts x 2 faces", len(strs)), strs),
+			familyToPath(fmt.Sprintf("text to paths: %d strings of at most 4 tokens x 3 fonts x 4 faces (plain, with offsets, each also faux italic)", len(strs)), strs),
 			familyRenderAsPath(fmt.Sprintf("RenderAsPath: %d strings of at most 4 tokens x 3 fonts x %d layouts", len(strs), len(kinds)), strs),
 			familySingle(fmt.Sprintf("PDF, one text: %d strings of at most 4 tokens x 3 fonts x %d layouts x SubsetFonts on/off", len(strs), len(kinds)), strs, allKinds(), both),
 			familySingle(fmt.Sprintf("PDF, ToUnicode ranges and W ranges: %d strings over {a,b,c}, digit runs and all pairs of consecutive code points (ASCII, Latin-1 letters) x 3 fonts x NewTextLine x SubsetFonts on/off", len(rangeStrings())), rangeStrings(), []int{kindLine}, both),
+			// characters with upright and with sideways orientation in turn (in vertical text with the
+			// natural orientation the font object changes between Identity-V and Identity-H at every turn)
+			familySingle("PDF, vertical text whose runs turn between upright (CJK) and sideways (Latin) up to four times x 3 fonts x the 4 vertical layouts x SubsetFonts on/off", mixedOrientationStrings, []int{4, 5, 8, 9}, both),
 			familyPairs("PDF, two texts", pairStrings, both),
 			familyReuse("PDF, one font object for two documents in a row", pairStrings),
 			familyWidthRuns(0),
@@ -39,17 +42,22 @@ func families(tier string) []fw.Family {
 	exactly3 := strs[len(strs2):]
 	return []fw.Family{
 		familySubsetter(),
-		familyToPath(fmt.Sprintf("text to paths: %d strings of at most 3 tokens x 3 fonts x 2 faces", len(strs)), strs),
+		familyToPath(fmt.Sprintf("text to paths: %d strings of at most 3 tokens x 3 fonts x 4 faces (plain, with offsets, each also faux italic)", len(strs)), strs),
 		familyRenderAsPath(fmt.Sprintf("RenderAsPath: %d strings of at most 3 tokens x 3 fonts x %d layouts", len(strs), len(kinds)), strs),
 		familySingle(fmt.Sprintf("PDF, one text, SubsetFonts on: %d strings of at most 3 tokens x 3 fonts x %d layouts", len(strs), len(kinds)), strs, allKinds(), []bool{true}),
 		familySingle(fmt.Sprintf("PDF, one text, SubsetFonts off: %d strings of at most 2 tokens x 3 fonts x %d layouts", len(strs2), len(kinds)), strs2, allKinds(), []bool{false}),
 		familySingle(fmt.Sprintf("PDF, one text, SubsetFonts off: %d strings of 3 tokens x 3 fonts x {NewTextLine Left, NewTextBox justified}", len(exactly3)), exactly3, []int{kindLine, kindJustified}, []bool{false}),
 		familySingle(fmt.Sprintf("PDF, ToUnicode ranges and W ranges: %d strings over {a,b,c}, digit runs and all pairs of consecutive code points (ASCII, Latin-1 letters) x 3 fonts x NewTextLine x SubsetFonts on/off", len(rangeStrings())), rangeStrings(), []int{kindLine}, both),
+		// characters with upright and with sideways orientation in turn (in vertical text with the
+		// natural orientation the font object changes between Identity-V and Identity-H at every turn)
+		familySingle("PDF, vertical text whose runs turn between upright (CJK) and sideways (Latin) up to four times x 3 fonts x the 4 vertical layouts x SubsetFonts on/off", mixedOrientationStrings, []int{4, 5, 8, 9}, both),
 		familyPairs("PDF, two texts", pairStrings[:3], both),
 		familyReuse("PDF, one font object for two documents in a row", pairStrings[:3]),
 		familyWidthRuns(0),
 	}
 }
+
+var mixedOrientationStrings = []string{"ab漢字cd日本", "漢ab字cd本", "a漢b字c", "漢字ab", "ab漢", "Ab漢字 cd日本ef"}
 
 // rangeStrings exercise the compact notations of the writer that the 8-token alphabet cannot
 // reach: consecutive codes with consecutive Unicode values (ToUnicode bfrange) and six or more
